@@ -23,6 +23,8 @@ package raft
 //@ ghost answered map[int]bool
 // ioOK: storage and codec calls succeed (only assumed in no-abort obligations).
 //@ ghost ioOK bool
+// logOpen: the Log has been opened (Open+Replay) and not closed since.
+//@ ghost logOpen bool
 // now: the wall clock (monotone; advanced by every time.Now/time.Since).
 //@ ghost now int
 
@@ -31,7 +33,7 @@ package raft
 //@ threadlocal g.ioOK AppendEntriesRequest AppendEntriesResponse RequestVoteRequest RequestVoteResponse
 //@ threadlocal InstallSnapshotRequest InstallSnapshotResponse
 //@ threadlocal Raft.id Raft.address Raft.logger Raft.transport Raft.log Raft.stateStorage Raft.snapshotStorage Raft.fsm
-//@ threadlocal Raft.options.electionTimeout Raft.options.heartbeatInterval Raft.options.leaseDuration
+//@ threadlocal Raft.options.*
 //@ threadlocal Operation.readIndex Operation.OperationType Operation.Bytes Operation.LogIndex Operation.LogTerm
 //@ threadlocal LogEntry.Index LogEntry.Term LogEntry.Data LogEntry.EntryType
 //@ threadlocal Raft.applyCond Raft.commitCond Raft.readOnlyCond Raft.electionCond Raft.snapshotCond
@@ -43,14 +45,19 @@ package raft
 //@ spec inLog(i) = Lfirst < i && i <= Llast
 
 //@ iface Log.LastIndex() (result)
+//@   requires [open] logOpen
 //@   ensures result == Llast
 //@ iface Log.NextIndex() (result)
+//@   requires [open] logOpen
 //@   ensures result == Llast + 1
 //@ iface Log.LastTerm() (result)
+//@   requires [open] logOpen
 //@   ensures result == Lterm[Llast]
 //@ iface Log.Size() (result)
+//@   requires [open] logOpen
 //@   ensures result == Llast - Lfirst
 //@ iface Log.Contains(index) (result)
+//@   requires [open] logOpen
 //@   ensures result == inLog(index)
 //@ iface Log.GetEntry(index) (e, err)
 //@   ensures inLog(index) ==> err == nil && e != nil && e.Index == index && e.Term == Lterm[index] && e.Data == Ldata[index] && e.EntryType == Ltyp[index]
@@ -123,6 +130,7 @@ package raft
 //@ inv [I7] persTerm == r.currentTerm && persVote == r.votedFor
 //@ inv [I13] r.state == Leader ==> forall fid string :: fid in r.followers ==> r.followers[fid].nextIndex <= Llast + 1
 //@ inv [Isnap] r.snapshot != nil ==> sfWriter[r.snapshot] && !sfPublished[r.snapshot]
+//@ inv [Iopen] (r.state != Shutdown ==> logOpen) && (r.configuration == nil ==> logOpen)
 //@ inv [I11] r.operationManager != nil && r.operationManager.leaderLease != nil
 //@ inv [I11b] r.operationManager.pendingReadOnly != nil && r.operationManager.pendingReplicated != nil
 //@ inv [I11c] forall o *Operation :: o in r.operationManager.pendingReadOnly ==> o != nil
@@ -137,6 +145,7 @@ package raft
 // S8 (per section, not a rely): an atomic section that takes the node out of the leader state leaves
 // it with empty tables of pending futures (they were answered with ErrNotLeader).
 //@ sectguar [S8] old(r.state) == Leader && r.state != Leader && r.state != Shutdown ==> (forall k uint64 :: !(k in r.operationManager.pendingReplicated)) && (forall o *Operation :: !(o in r.operationManager.pendingReadOnly))
+//@ guar [Gopen] old(logOpen) && r.state != Shutdown ==> logOpen
 //@ guar [Gclk] now >= old(now)
 // GL (leader append-only): used as rely under assumption A-LEAD-ONCE (a node does not enter the
 // leader state twice in one term), without which it is not transitive.
@@ -185,7 +194,7 @@ package raft
 //@   ensures [AE.commit-monotone] r.commitIndex >= old(r.commitIndex)
 //@   ensures [AE.commit-bound] err == nil ==> r.commitIndex <= max(old(r.commitIndex), P + n) && r.commitIndex <= max(old(r.commitIndex), request.LeaderCommit)
 //@   ensures [AE.term-reply] err == nil ==> response.Term == r.currentTerm && r.currentTerm >= old(r.currentTerm)
-//@   ensures [AE.contact] err == nil && request.Term >= old(r.currentTerm) ==> r.lastContact >= old(r.lastContact) && r.leaderID == request.LeaderID
+//@   ensures [AE.contact] err == nil && request.Term >= old(r.currentTerm) ==> r.lastContact >= old(now) && r.leaderID == request.LeaderID
 //@   loop range request.Entries invariant [skipped] forall j int :: 0 <= j && j < i ==> P+1+j <= Llast && Lterm[P+1+j] == E[j].Term
 //@   loop for index invariant [hint] r.lastIncludedIndex <= index && index < P
 
@@ -345,6 +354,7 @@ package raft
 //@   ensures [lease-fresh] r.operationManager.leaderLease.expiration <= now && now >= old(now)
 //@   ensures [snapshot-reset] r.snapshot == nil
 //@   ensures [answered-mono] forall c int :: old(answered[c]) ==> answered[c]
+//@   ensures [config-future-failed] r.configurationResponseCh == nil && (old(r.configurationResponseCh) != nil ==> answered[old(r.configurationResponseCh)])
 
 //@ func Raft.becomeCandidate
 //@   flags inline lockheld
@@ -378,6 +388,7 @@ package raft
 //@   requires r.operationManager.leaderLease != nil
 //@   requires forall id string :: id in r.followers ==> r.followers[id] != nil
 //@   requires persTerm == r.currentTerm && persVote == r.votedFor && 0 <= Lfirst && Lfirst <= Llast && r.lastContact <= now && r.state <= Shutdown
+//@   requires r.state != Shutdown ==> logOpen
 //@   ensures [voter-only] !old(r.configuration.IsVoter[r.id]) ==> r.state == old(r.state) && r.currentTerm == old(r.currentTerm) && r.votedFor == old(r.votedFor)
 //@   ensures [quiet] now - old(r.lastContact) < r.options.electionTimeout ==> r.state == old(r.state) && r.currentTerm == old(r.currentTerm) && r.votedFor == old(r.votedFor)
 //@   ensures [leader-keeps] old(r.state) == Leader || old(r.state) == Shutdown ==> r.state == old(r.state) && r.currentTerm == old(r.currentTerm)
@@ -402,6 +413,7 @@ package raft
 //@ func Raft.becomeLeader
 //@   flags lockheld
 //@   requires [pre-nonnil] r.configuration != nil && r.followers != nil && r.log != nil && r.operationManager != nil && r.logger != nil
+//@   requires [pre-open] logOpen
 //@   requires [pre-I6b] forall id string :: id in r.followers ==> r.followers[id] != nil
 //@   ensures [state] r.state == Leader && r.currentTerm == old(r.currentTerm) && r.votedFor == old(r.votedFor)
 //@   ensures [noop] Llast == old(Llast) + 1 && Lterm[Llast] == r.currentTerm && Ltyp[Llast] == NoOpEntry && forall i int :: i <= old(Llast) ==> Lterm[i] == old(Lterm[i]) && Ltyp[i] == old(Ltyp[i]) && Ldata[i] == old(Ldata[i])
@@ -429,11 +441,13 @@ package raft
 // ===========================================================================================
 
 //@ iface Log.Open() (err)
-//@   modifies Lfirst, Llast, Lterm, Ltyp, Ldata
+//@   modifies Lfirst, Llast, Lterm, Ltyp, Ldata, logOpen
 //@ iface Log.Replay() (err)
-//@   modifies Lfirst, Llast, Lterm, Ltyp, Ldata
-//@   ensures err == nil ==> 0 <= Lfirst && Lfirst <= Llast
+//@   modifies Lfirst, Llast, Lterm, Ltyp, Ldata, logOpen
+//@   ensures err == nil ==> 0 <= Lfirst && Lfirst <= Llast && logOpen
 //@ iface Log.Close() (err)
+//@   modifies logOpen
+//@   ensures !logOpen
 //@ iface StateMachine.NeedSnapshot(logSize) (result)
 //@ iface Transport.DecodeConfiguration(data) (configuration, err)
 //@   ensures ioOK ==> err == nil
@@ -448,6 +462,7 @@ package raft
 //@ iface Transport.RegsiterInstallSnapshotHandler(handler) ()
 
 //@ func Raft.restore
+//@   flags lockheld
 //@   requires r.lastApplied <= r.commitIndex
 //@   requires r.log != nil && r.stateStorage != nil && r.snapshotStorage != nil && r.transport != nil && r.fsm != nil
 //@   ensures [term-vote] err == nil ==> r.currentTerm == persTerm && r.votedFor == persVote
@@ -492,17 +507,20 @@ package raft
 //@ func Raft.committedThisTerm
 //@   flags lockheld
 //@   requires r.log != nil && r.logger != nil
+//@   requires [pre-open] logOpen
 //@   ensures [spec] result == committedThisTermSpec(r)
 
 //@ func lease.renew
+//@   flags lockheld
 //@   ensures [spec] l.expiration == now + l.duration && now >= old(now)
 //@ func lease.isValid
+//@   flags lockheld
 //@   ensures [spec] result == (now < l.expiration) && now >= old(now)
 //@ func newLease
 //@   ensures [spec] result != nil && result.duration == duration && result.expiration == now && now >= old(now)
 
 //@ func operationManager.appliableReadOnlyOperations
-//@   flags fresh-result
+//@   flags lockheld fresh-result
 //@   ensures [nonnil] forall o *Operation :: o in r.pendingReadOnly ==> o != nil
 //@   requires r.pendingReadOnly != nil
 //@   requires forall o *Operation :: o in r.pendingReadOnly ==> o != nil
@@ -521,6 +539,7 @@ package raft
 //@ func Raft.applyLoop
 //@   release s2 [order] operation.LogIndex == r.lastApplied + 1 && operation.LogIndex <= r.commitIndex && operation.LogTerm == Lterm[operation.LogIndex] && operation.Bytes == Ldata[operation.LogIndex] && Ltyp[operation.LogIndex] == OperationEntry && operation.OperationType == Replicated
 //@   at before-assign r.lastApplied assert [advance] newval == r.lastApplied + 1 && newval <= r.commitIndex
+//@   at call respond(r.configurationResponseCh, assert [config-answer] arg2 == nil && arg1 == *r.configuration
 //@   at call respond(responseCh, assert [answer] response.Operation.LogIndex == operation.LogIndex && response.Operation.LogTerm == operation.LogTerm && response.Operation.Bytes == operation.Bytes && err == nil
 
 //@ func Raft.applyConfiguration
@@ -552,25 +571,31 @@ package raft
 //@ func Raft.appendConfiguration
 //@   flags lockheld
 //@   requires [pre-nonnil] configuration != nil && r.log != nil && r.transport != nil && r.logger != nil
+//@   requires [pre-open] logOpen
 //@   ensures [frame] forall c *Configuration :: c != configuration ==> c.Index == old(c.Index)
 //@   ensures [entry] Llast == old(Llast) + 1 && configuration.Index == Llast && Lterm[Llast] == r.currentTerm && Ltyp[Llast] == ConfigurationEntry && forall i int :: i <= old(Llast) ==> Lterm[i] == old(Lterm[i]) && Ltyp[i] == old(Ltyp[i]) && Ldata[i] == old(Ldata[i])
 
 //@ func Raft.submitReplicatedOperation
+//@   flags inline
 //@   ensures [register] old(r.state) == Leader ==> Llast == old(Llast) + 1 && Lterm[Llast] == r.currentTerm && Ldata[Llast] == operationBytes && Ltyp[Llast] == OperationEntry && r.operationManager.pendingReplicated[Llast] == operationFuture.responseCh && operationFuture.responseCh != nil
 //@   ensures [not-leader] old(r.state) != Leader ==> answered[operationFuture.responseCh] && Llast == old(Llast) && r.operationManager.pendingReplicated == old(r.operationManager.pendingReplicated)
 //@   ensures [log-frame] forall i int :: i <= old(Llast) ==> Lterm[i] == old(Lterm[i]) && Ltyp[i] == old(Ltyp[i]) && Ldata[i] == old(Ldata[i])
 
 //@ func Raft.submitReadOnlyOperation
+//@   flags inline
+//@   requires readOnlyType == LinearizableReadOnly || readOnlyType == LeaseBasedReadOnly
 //@   ensures [not-leader] old(r.state) != Leader ==> answered[operationFuture.responseCh] && Llast == old(Llast)
 //@   at before-assign r.operationManager.pendingReadOnly[operation] assert [readIndex] r.state == Leader && operation != nil && operation.readIndex == r.commitIndex && !operation.quorumVerified && operation.OperationType == readOnlyType && newval == operationFuture.responseCh
 
 //@ func Raft.AddServer
 //@   at call r.appendConfiguration assert [guard] r.state == Leader && committedThisTermSpec(r) && !pendingSpec(r)
 //@   at call r.appendConfiguration assert [delta] (forall k string :: (k in configuration.Members) == (k in r.configuration.Members || k == id)) && (forall k string :: k != id && k in r.configuration.Members ==> configuration.Members[k] == r.configuration.Members[k] && configuration.IsVoter[k] == r.configuration.IsVoter[k]) && configuration.Members[id] == address && configuration.IsVoter[id] == isVoter
+//@   ensures [future-tabled] Llast > old(Llast) ==> r.configurationResponseCh == configurationFuture.responseCh && configurationFuture.responseCh != nil
 //@   ensures [pending-after] Llast > old(Llast) && old(r.committedConfiguration == nil || r.committedConfiguration.Index <= Llast) ==> pendingSpec(r) && r.configuration.Index == Llast
 //@   ensures [answered-or-pending] Llast == old(Llast) ==> answered[configurationFuture.responseCh]
 
 //@ func Raft.RemoveServer
+//@   ensures [future-tabled] Llast > old(Llast) ==> r.configurationResponseCh == configurationFuture.responseCh && configurationFuture.responseCh != nil
 //@   ensures [pending-after] Llast > old(Llast) && old(r.committedConfiguration == nil || r.committedConfiguration.Index <= Llast) ==> pendingSpec(r)
 //@   at call r.appendConfiguration assert [guard] r.state == Leader && committedThisTermSpec(r) && !pendingSpec(r)
 //@   at call r.appendConfiguration assert [delta] (forall k string :: (k in configuration.Members) == (k in r.configuration.Members && k != id)) && (forall k string :: k != id && k in r.configuration.Members ==> configuration.Members[k] == r.configuration.Members[k] && configuration.IsVoter[k] == r.configuration.IsVoter[k])
@@ -695,21 +720,27 @@ package raft
 //@ spec sameAbove(l, lo) = forall k int :: lo <= k && k < len(l.entries) ==> l.entries[k] == old(l.entries[k])
 
 //@ func persistentLog.Contains
+//@   flags lockheld
 //@   requires logRI(l)
 //@   ensures [spec] result == absContains(l, index)
 //@ func persistentLog.LastIndex
+//@   flags lockheld
 //@   requires logRI(l)
 //@   ensures [spec] result == absLast(l)
 //@ func persistentLog.NextIndex
+//@   flags lockheld
 //@   requires logRI(l)
 //@   ensures [spec] result == absLast(l) + 1
 //@ func persistentLog.LastTerm
+//@   flags lockheld
 //@   requires logRI(l)
 //@   ensures [spec] result == l.entries[len(l.entries)-1].Term
 //@ func persistentLog.Size
+//@   flags lockheld
 //@   requires logRI(l)
 //@   ensures [spec] result == absLast(l) - absFirst(l)
 //@ func persistentLog.GetEntry
+//@   flags lockheld
 //@   requires l.file != nil ==> logRI(l)
 //@   ensures [found] l.file != nil && absContains(l, index) ==> err == nil && result0 != nil && result0 == l.entries[index - absFirst(l)] && result0.Index == index
 //@   ensures [missing] l.file == nil || !absContains(l, index) ==> err != nil && result0 == nil
@@ -778,6 +809,7 @@ package raft
 //@   ensures tornTail ==> (err == nil || !iserr(err, io.EOF))
 
 //@ func persistentLog.AppendEntries
+//@   flags lockheld
 //@   requires l.file != nil ==> logRI(l)
 //@   requires forall j int :: 0 <= j && j < len(entries) ==> entries[j] != nil
 //@   requires l.file != nil ==> forall j int :: 0 <= j && j < len(entries) ==> entries[j].Index == absLast(l) + 1 + j
@@ -794,6 +826,7 @@ package raft
 //@   flags inline
 
 //@ func persistentLog.Truncate
+//@   flags lockheld
 //@   requires l.file != nil ==> logRI(l)
 //@   ensures [spec] err == nil ==> old(absContains(l, index)) && len(l.entries) == index - old(absFirst(l)) && forall k int :: 0 <= k && k < len(l.entries) ==> l.entries[k] == old(l.entries[k])
 //@   ensures [missing] old(l.file) != nil && !old(absContains(l, index)) ==> err != nil
@@ -804,6 +837,7 @@ package raft
 //@   at before-assign l.entries assert [sync-before-publish] fSynced[l.file] && fPos[l.file] == l.entries[index - absFirst(l)].Offset
 
 //@ func persistentLog.Compact
+//@   flags lockheld
 //@   requires l.file != nil ==> logRI(l)
 //@   ensures [spec] err == nil ==> old(absContains(l, index)) && len(l.entries) == old(len(l.entries)) - (index - old(absFirst(l))) && forall k int :: 0 <= k && k < len(l.entries) ==> l.entries[k] == old(l.entries[k + (index - absFirst(l))])
 //@   ensures [missing] old(l.file) != nil && !old(absContains(l, index)) ==> err != nil
@@ -814,6 +848,7 @@ package raft
 //@   loop range newEntries invariant [tmp] tmpFile != nil
 
 //@ func persistentLog.DiscardEntries
+//@   flags lockheld
 //@   ensures [spec] err == nil ==> len(l.entries) == 1 && l.entries[0] != nil && l.entries[0].Index == index && l.entries[0].Term == term && l.entries[0].Offset == 0
 //@   ensures [error-frame] err != nil ==> l.entries == old(l.entries)
 //@   ensures [ri] err == nil ==> logRI(l)
@@ -821,11 +856,13 @@ package raft
 //@   at call encodeLogEntry assert [offset-current] arg1.Offset == fPos[tmpFile] && arg0 == tmpFile
 
 //@ func persistentLog.rename
+//@   flags lockheld
 //@   requires tmpFile != nil && l.file != nil
 //@   ensures [reopened] err == nil ==> l.file != nil
 //@   at call os.Rename assert [synced-closed-before-rename] fSynced[tmpFile] && fClosed[tmpFile] && fClosed[l.file]
 
 //@ func persistentLog.Replay
+//@   flags lockheld
 //@   requires l.file != nil
 //@   ensures [torn-tail] tornTail && ioOK ==> err == nil
 
@@ -858,3 +895,26 @@ package raft
 
 //@ func snapshotFile.Discard
 //@   ensures [keeps-published] old(s.file) == nil ==> err == nil
+
+// ===========================================================================================
+// C18: totality of the public API (no panic / abort; futures answered or tabled)
+// ===========================================================================================
+
+//@ func State.String
+//@   requires s <= Shutdown
+//@ func OperationType.String
+//@   requires o <= LeaseBasedReadOnly
+//@ extern rand.Int63n(n) (result)
+//@   requires [positive] n > 0
+//@   ensures 0 <= result && result < n
+//@ func random.RandomTimeout
+//@ func Raft.SubmitOperation
+//@ func Raft.Status
+//@ func Raft.Configuration
+//@ func Raft.Stop
+//@ func Raft.cancelConfigurationChange
+//@   flags inline lockheld
+
+//@ func Raft.Bootstrap
+//@   flags inv
+//@   requires r.transport != nil && r.log != nil && r.logger != nil
